@@ -74,6 +74,9 @@ int main(int argc, char** argv) {
         if (run.lex_error) want += "[" + std::to_string(failpos.first) + ":" + std::to_string(failpos.second) + "] PARSE: Unexpected character: " + std::string(1, failbyte) + "\n";
         std::ostringstream es; auto r = p.parse(parse_options{}.set_skip_whitespace(skip_ws).set_skip_newline(skip_nl), string_buffer(std::string(in)), es);
         {   // the same options set by a chain of setters on a named object (the setters return *this), and one by one
+            // the setters called without an argument switch the option ON (set_verbose(), set_skip_whitespace(), set_skip_newline())
+            if (skip_ws && skip_nl) { std::ostringstream e4; auto r4 = p.parse(parse_options{}.set_skip_whitespace(false).set_skip_newline(false).set_skip_whitespace().set_skip_newline(), string_buffer(std::string(in)), e4);
+                ++checks; if (r4 != r || e4.str() != es.str()) { ++fails; if (first.empty()) first = "set_skip_whitespace() / set_skip_newline() without an argument do not switch the options on"; } }
             parse_options named; named.set_verbose(false).set_skip_whitespace(skip_ws).set_skip_newline(skip_nl);
             parse_options single; single.set_skip_newline(skip_nl); single.set_skip_whitespace(skip_ws);
             std::ostringstream e2, e3; auto r2 = p.parse(named, string_buffer(std::string(in)), e2); auto r3 = p.parse(single, string_buffer(std::string(in)), e3);
